@@ -157,15 +157,35 @@ descriptor_names = st.sampled_from([
     "no_such_module_vf.Klass", "decimal.NoSuchClass", "Decimal", "", ".", "..", "a..b", "decimal.", ".Decimal",
     "decimal Decimal", "decimal.Decimal\n", "décimal.Decimal", "os", "builtins.object", "builtins.dict", "builtins.int",
     "json.JSONDecoder", "types.SimpleNamespace",
+    # classes whose instances cannot be printed (fuzz/canary/vhostile.py)
+    "vhostile.NeedsFields", "vhostile.ReprValueError", "vhostile.ReprKeyError", "vhostile.ReprTypeError", "vhostile.StrRaises",
+    "vhostile.Slotted",
 ])
+# side-effect-free callables that give values which cannot be printed or encoded: an integer beyond the interpreter's
+# int/str conversion limit, a complex number, a range, bytes.  (builtins.float("nan"/"inf") is left out by construction: echoing it is
+# one more route to the open finding C02/overflowing-number-echoed-as-nonstandard-literal.)
+UNPRINTABLE = [["builtins.pow", [10, 5000]], ["builtins.pow", [7, 20000]], ["builtins.complex", [1, 2]], ["builtins.range", [3]],
+               ["builtins.bytes", [3]], ["builtins.frozenset", [[1]]],
+               ["builtins.memoryview", [{"__jsonclass__": ["builtins.bytes", [2]]}]], ["builtins.slice", [1]],
+               ["vhostile.NeedsFields", []], ["vhostile.ReprValueError", []]]
 descriptor_args = gen.pick(st.lists(gen.json_values(3), max_size=2), st.dictionaries(st.sampled_from(["a", "value"]), gen.json_values(3), max_size=2),
                             gen.json_values(3))
+
+
+def canary_path():
+    import os
+    import sys
+    from vlib.core import VERIF_DIR
+    d = os.path.join(VERIF_DIR, "fuzz", "canary")
+    if d not in sys.path:
+        sys.path.insert(0, d)
 
 
 @st.composite
 def descriptor_values(draw):
     desc = draw(gen.pick(
         st.tuples(descriptor_names, descriptor_args).map(list),
+        st.sampled_from(UNPRINTABLE),
         st.lists(gen.json_values(3), max_size=3),
         gen.json_values(3),
     ))
@@ -183,7 +203,7 @@ OTHER_ENTRIES = [1, "x", None, [], {}, [1], True, {"jsonrpc": "2.0", "method": "
 @st.composite
 def descriptor_cases(draw):
     dv = draw(descriptor_values())
-    wrap = draw(st.sampled_from(["param", "nested", "kw", "top", "batch", "id", "method"]))
+    wrap = draw(st.sampled_from(["param", "nested", "kw", "top", "batch", "id", "method", "noversion", "noversion-id", "version", "params"]))
     if wrap == "param":
         req = {"jsonrpc": "2.0", "id": 1, "method": "echo", "params": [dv]}
     elif wrap == "nested":
@@ -205,6 +225,15 @@ def descriptor_cases(draw):
         req = draw(others) + [carrier] + draw(others)
     elif wrap == "id":
         req = {"jsonrpc": "2.0", "id": dv, "method": "echo", "params": []}
+    elif wrap == "noversion":
+        # an object that is no request: the reply quotes it
+        req = {draw(st.sampled_from(["x", "data", "foo"])): dv}
+    elif wrap == "noversion-id":
+        req = {"id": draw(st.sampled_from([1, "a", None])), "x": [dv]}
+    elif wrap == "version":
+        req = {"jsonrpc": dv, "id": 1, "method": "echo", "params": []}
+    elif wrap == "params":
+        req = {"jsonrpc": "2.0", "id": 1, "method": "echo", "params": dv}
     else:
         req = {"jsonrpc": "2.0", "id": 1, "method": dv, "params": []}
     import json
@@ -230,7 +259,7 @@ SUBS = [
         what="the same bodies through the real do_POST handler: status 200, exact Content-length, body equals the dispatcher text"),
     Sub("depth", oracle_wellformed_only, enumerate=depth_cases, shards={"quick": 4, "thorough": 8},
         what="nesting depth sweeps around the recursion limits"),
-    Sub("descriptors", oracle_wellformed_only, strategy=lambda tier: descriptor_cases(),
+    Sub("descriptors", oracle_wellformed_only, strategy=lambda tier: descriptor_cases(), setup=canary_path,
         budget={"quick": 3000, "thorough": 60000}, shards={"quick": 4, "thorough": 8},
         what="'__jsonclass__' descriptors (side-effect-free classes, invalid/unresolvable names, malformed descriptors) anywhere in a request"),
 ]
